@@ -60,6 +60,21 @@ func (x *Exec) libModel(fr *Frame, st *State, ins ssa.Instruction, callee *ssa.F
 		}
 		set(r)
 		return true
+	case "encoding/json.Marshal", "encoding/json.MarshalIndent":
+		// the encoding is a fresh byte slice holding valid UTF-8 ("String values encode as JSON
+		// strings coerced to valid UTF-8", encoding/json); content and error otherwise unconstrained
+		x.havocReachable(fr, st, callee.Signature, args, argVals[:1], full, ins.Pos())
+		byteT := types.Typ[types.Uint8]
+		arr := vc.fresh("json", arraySort(SInt, SInt))
+		ref := x.alloc(st, types.NewArray(byteT, 0), arr)
+		n := vc.fresh("jsonlen", SInt)
+		vc.assert(and(le(intLit(0), n), le(n, bigIntLit("9223372036854775807"))))
+		vc.declareFun("string_of_slice", []Sort{arraySort(SInt, SInt), SInt, SInt}, SString)
+		vc.declareFun("uf_unicode!utf8.ValidString_0", []Sort{SString}, SBool)
+		vc.assert(app(SBool, "uf_unicode!utf8.ValidString_0", app(SString, "string_of_slice", arr, intLit(0), n)))
+		okT := vc.fresh("jsonok", SBool)
+		set(ite(okT, mkSlice(ref, intLit(0), n, n), Term{"(mk-slice 0 0 0 0)", SSlice}), ite(okT, Term{"(mk-iface 0 0)", SIface}, x.nonNilError(st)))
+		return true
 	case "fmt.Errorf", "errors.New":
 		set(x.nonNilError(st))
 		return true
